@@ -257,7 +257,8 @@ def gen_nufft_formulas(ctx=None):
     if stmts != [("Mult", "output[..., i]", "scale"), ("Add", "output[..., i]", "shift")]:
         raise U("_scale_coord update sequence %s" % stmts)
     # a fresh copy of the coordinates: in coord's own dtype, or in a floating dtype wide enough for integer-typed coordinates
-    if ast.unparse(T.find_assign(fn, "output")) not in ("coord.copy()", "coord.astype(np.result_type(coord.dtype, np.float32))"):
+    if ast.unparse(T.find_assign(fn, "output")) not in ("coord.copy()", "coord.astype(np.result_type(coord.dtype, np.float32))",
+                                                             "coord.astype(coord.dtype if coord.dtype.kind == 'f' else np.float64)"):
         raise U("_scale_coord output init")
     env = {"oversamp": T.RAT, "n": T.INT}
     s, t = rat_or_int(vals["scale"], env)
@@ -564,7 +565,8 @@ def _wrapper(tree, fname, lean, args, table_name):
                     raise U("xp = %s" % ast.unparse(v))
                 xp_ok = True
                 continue
-            if ast.unparse(v) == "np.result_type(coord.dtype, np.float32)" and call is None:
+            if ast.unparse(v) in ("np.result_type(coord.dtype, np.float32)",
+                                  "coord.dtype if coord.dtype.kind == 'f' else np.float64") and call is None:
                 # the floating dtype width / param are stored in (coord.dtype for floating coordinates, a float type wide
                 # enough for integer-typed ones): the model's width / param are rationals either way
                 fdtypes.add(tgt)
